@@ -390,6 +390,11 @@ def _iteration_rules(res, drv, fsolve, f, ends):
         reduces = [ev for ev in e.events if ev[0] == "reduce" and ev[2] == dtname]
         if any(ev[1] != "min" for ev in reduces):
             bad("DRV-DT-MIN", "global time step is the %s over cells, not the minimum" % reduces[0][1], reduces[0][3], "dt-reduce")
+        # ---- a shallow copy that is stepped advances the arrays of its original as well
+        shallow = {ev[2]: ev for ev in e.events if ev[0] == "shallow-copy"}
+        hit = [ev for ev in steps if ev[1] in shallow]
+        if hit:
+            bad("TS-FRESH-MAIN", "the field advanced at line %d is a SHALLOW copy (copy.copy, line %d): a new object holding the SAME data arrays, which add_res updates in place -- the original (the state of the previous iteration, a snapshot already handed out) moves with it" % (hit[0][4], shallow[hit[0][1]][3]), hit[0][4], "shallow-copy")
         # ---- main step
         main = [ev for ev in steps if ev[1] == qn_end.id]
         side = [ev for ev in steps if ev[1] != qn_end.id]
